@@ -60,6 +60,19 @@ func main() {
 		}
 	}
 
+	if hp := os.Getenv("VERIF_DEBUG_HEAPPROF"); hp != "" {
+		// profiling aid only (never set by the controller): heap profile after VERIF_DEBUG_STOP_AFTER, then exit
+		if sec, err := time.ParseDuration(os.Getenv("VERIF_DEBUG_STOP_AFTER")); err == nil {
+			go func() {
+				time.Sleep(sec)
+				runtime.GC()
+				f, _ := os.Create(hp)
+				pprof.Lookup("heap").WriteTo(f, 0)
+				f.Close()
+				os.Exit(0)
+			}()
+		}
+	}
 	if *memcap > 0 {
 		go memMonitor(*memcap << 20)
 	}
